@@ -31,6 +31,7 @@ var (
 )
 
 const height = 10
+const sameTailSalt = 77
 
 func mkKey(name string, ty int32, seed byte) {
 	c, err := crypto.Load(name, -1)
@@ -69,7 +70,15 @@ var variants = []variant{
 
 func rawTxs(n int, v variant, salt int64) []*types.Transaction {
 	txs := make([]*types.Transaction, n)
+	headSalt := salt
+	if salt == sameTailSalt { // same members as salt 1 except for the head
+		salt = 1
+	}
 	for i := range txs {
+		salt := salt
+		if i == 0 {
+			salt = headSalt
+		}
 		exec := []string{"coins", "none", "token", "user.write"}[i%4]
 		if v.Para {
 			exec = "user.p.vx." + []string{"coins", "token", "none"}[i%3]
@@ -303,6 +312,7 @@ type world struct {
 	enc    []byte              // the honest group
 	sib    *types.Transactions // same shape, other payloads/nonces, same signers
 	bigger *types.Transactions // size n+1 (nil when n == 20)
+	other  *types.Transactions // another honest group whose non-head members have the same content (same hashes) but another head, hence another header
 	alone  *types.Transaction  // a signed stand-alone transaction
 }
 
@@ -314,6 +324,9 @@ func mkWorld(n, vi int) (*world, string) {
 	}
 	w := &world{n: n, v: v, enc: types.Encode(g)}
 	if w.sib, f = build(n, v, 2); f != "" {
+		return nil, f
+	}
+	if w.other, f = build(n, v, sameTailSalt); f != "" {
 		return nil, f
 	}
 	if n < int(types.MaxTxGroupSize) {
@@ -377,6 +390,15 @@ func (w *world) tamper(c kase) (g *types.Transactions, ok bool) {
 			return nil, false
 		}
 		g.Txs[c.I] = w.bigger.Txs[c.J].Clone()
+	case "subst-other-header": // same content and hash, signed by the same key for ANOTHER group
+		if c.I == 0 || !bytes.Equal(g.Txs[c.I].Hash(), w.other.Txs[c.I].Hash()) {
+			return nil, false
+		}
+		g.Txs[c.I] = w.other.Txs[c.I].Clone()
+	case "subst-other-header-all-tail":
+		for i := 1; i < n; i++ {
+			g.Txs[i] = w.other.Txs[i].Clone()
+		}
 	case "subst-dup":
 		if c.I == c.J {
 			return nil, false
@@ -523,6 +545,9 @@ func explore(n, vi int) {
 	}
 	exec := func(c kase) {
 		if f := w.run(c); f != "" {
+			if c.Kind == "field" || c.Kind == "field-rebuild" {
+				f += fmt.Sprintf("; altered %s (%s) of member %d signed with driver %s", c.Field, c.FKind, c.I, keyName[c.I%len(keys)])
+			}
 			r.Violate(fp(c, f), fmt.Sprintf("%s (size %d, variant %s, case %s)", f, n, w.v.Name, vx.J(c)), c, func() string {
 				w2, f2 := mkWorld(c.N, c.Variant)
 				if f2 != "" {
@@ -538,12 +563,14 @@ func explore(n, vi int) {
 			try(kase{Kind: "swap", I: i, J: j})
 		}
 	}
+	try(kase{Kind: "subst-other-header-all-tail"})
 	try(kase{Kind: "reverse"})
 	try(kase{Kind: "rotate"})
 	for i := 0; i < n; i++ {
 		try(kase{Kind: "drop", I: i})
 		try(kase{Kind: "drop-fixcount", I: i})
 		try(kase{Kind: "subst-alone", I: i})
+		try(kase{Kind: "subst-other-header", I: i})
 		for j := 0; j < n; j++ {
 			try(kase{Kind: "subst-sibling", I: i, J: j})
 			try(kase{Kind: "subst-dup", I: i, J: j})
@@ -606,7 +633,7 @@ func explore(n, vi int) {
 func main() {
 	clog.SetLogLevel("crit")
 	r = vx.Start("C17", "exploration")
-	r.Rule = "for every group size (quick 2,3,4,20; thorough 2..20) x 4 variants (main chain, one parachain + height expiry, time expiry + >1000-byte member, expiry set by the client SetExpire/RebuiltGroup path): the untouched signed group, every transposition, reversal, rotation, every drop (also with adjusted counts), insertion at every position of (stand-alone tx | every member of a sibling group | every member of a valid group one larger | a duplicate of every member), substitution of every member by the same, every descriptor-derived field mutation of every member (with and without the attacker re-chaining the group), head fee-1, tail fee+1, and honestly re-signed groups with head fee below the requirement / non-zero tail fee. Both the direct route (Transactions.Check/CheckSign) and the packed wire route (Transactions.Tx -> TransactionCache.Check/CheckSign) are evaluated. distinct = distinct (mutation kind[:field] -> rejecting mechanism) classes"
+	r.Rule = "for every group size (quick 2,3,4,20; thorough 2..20) x 4 variants (main chain, one parachain + height expiry, time expiry + >1000-byte member, expiry set by the client SetExpire/RebuiltGroup path): the untouched signed group, every transposition, reversal, rotation, every drop (also with adjusted counts), insertion at every position of (stand-alone tx | every member of a sibling group | every member of a valid group one larger | a duplicate of every member), substitution of every member by the same (and by the equal-hash member of another honest group with a different head), every descriptor-derived field mutation of every member (with and without the attacker re-chaining the group), head fee-1, tail fee+1, and honestly re-signed groups with head fee below the requirement / non-zero tail fee. Both the direct route (Transactions.Check/CheckSign) and the packed wire route (Transactions.Tx -> TransactionCache.Check/CheckSign) are evaluated. distinct = distinct (mutation kind[:field] -> rejecting mechanism) classes"
 	r.Assume = []string{
 		"a member re-signed with a different key but identical content is not counted as a substituted member: hashes ignore the signature by design (C16), observed and counted as observed_resigned_member_accepted",
 		"expiry of groups (IsExpire) is not part of Check/CheckSign and is not asserted here",
